@@ -41,6 +41,8 @@ def scenario(ex, path, model):
                 c["raises"] = concretize(raised.exc, model, st)
             elif "should" in e.d:
                 c["decision"] = {"should": bool(z3.is_true(ev(model, e.d["should"]))), "delay": ev(model, e.d["delay"]).as_long()}
+            elif "scripted_bool" in e.d:
+                c["value"] = bool(z3.is_true(ev(model, e.d["scripted_bool"])))
             elif e.name == "SerDes.serialize":
                 res = st.ghost.get("ser", [])
                 term = next((r for _, val, r in res if val is e.args[0] or (is_sym(val, "any") and is_sym(e.args[0], "any") and z3.eq(val.t, e.args[0].t))), None)
